@@ -837,42 +837,33 @@ func concurrentStream(t *testing.T) {
 			calls, probes, intra := append([]call{}, ps.calls...), append([]probe{}, ps.probes...), append([][]probe{}, ps.intra...)
 			ps.mu.Unlock()
 			w.IC.SetFault(nil)
-			// plans per ident
-			type pl struct {
-				ident string
-				plan  []planEntry
-			}
-			plans := []*pl{}
-			find := func(id string) *pl {
-				for _, p := range plans {
-					if p.ident == id {
-						return p
-					}
-				}
-				p := &pl{ident: id}
-				plans = append(plans, p)
-				return p
-			}
+			// the union of all deployments' plans: one entry per slot = (node, ident)
+			type slotKey struct{ node, ident string }
+			seenSlot := map[slotKey]bool{}
+			idents := map[string]bool{}
+			planT := []string{}
 			for _, c := range calls {
-				if c.Kind == "CCreateProc" {
-					p := find(c.Ident)
-					p.plan = append(p.plan, planEntry{Node: c.Node, Count: c.Count})
+				if c.Kind != "CCreateProc" && c.Kind != "CDelProc" {
+					continue
 				}
+				sk := slotKey{c.Node, c.Ident}
+				if seenSlot[sk] {
+					continue
+				}
+				seenSlot[sk] = true
+				idents[c.Ident] = true
+				cnt := 0
+				if c.Kind == "CCreateProc" {
+					cnt = c.Count
+				}
+				planT = append(planT, vh.Pair(vh.Pair(vh.Str(c.Node), vh.Str(c.Ident)), vh.ZI(cnt)))
 			}
 			left := pr.markers()
 			markersLeft := false
-			planT := []string{}
-			for _, p := range plans {
-				for _, m := range left {
-					if m.Ident == p.ident {
-						markersLeft = true
-					}
+			for _, m := range left {
+				if idents[m.Ident] {
+					markersLeft = true
 				}
-				es := make([]string, len(p.plan))
-				for i, e := range p.plan {
-					es[i] = vh.Pair(vh.Str(e.Node), vh.ZI(e.Count))
-				}
-				planT = append(planT, vh.Pair(vh.Str(p.ident), vh.List(es)))
 			}
 			b := "Etcd"
 			if backend == "redis" {
